@@ -102,8 +102,8 @@ def do_op(t, op, style, ctx_info, plan=None):
             Transaction.commit = orig_commit
     try:
         if op == "delsnap":
-            t.snapshot_manager.delete_snapshot(ctx_info["old_snapshot"])
-            return "ok", written
+            r_ = t.snapshot_manager.delete_snapshot(ctx_info["old_snapshot"])
+            return ("ok" if r_ is not False else "ok:false"), written
         if style == "ctx":
             with t.new_transaction() as tx:
                 _queue(tx, op, ctx_info, written)
@@ -236,6 +236,8 @@ def _sweep(ctx, rep, backend, op, style, base, model_ok, model_rows):
                     if flipped is not None:
                         if outcome == "ok" and not flipped:
                             problems.append("reported success but the table is in the pre-state")
+                        if outcome == "ok:false" and flipped:
+                            problems.append("returned False ('nothing done') although the operation took effect (an unknowable outcome must be reported as such)")
                         if outcome == "raise:storage" and flipped and not (backend != "local" and kind in ("exc-after", "exc-other-after")):
                             # a storage error after the commit point may only come from post-commit cleanup, which must not raise
                             problems.append("a storage error was raised although the commit took effect")
